@@ -1,7 +1,7 @@
 SPECIFICATION GenSpec
 CONSTANTS SmallIds = {1} Widths = {} MaxTok = 1
   Texts <- CTexts HRs <- CHRs
-  MaxIn = 2 Kinds = {"h", "s", "l"} MsgIds = {1} NextRVs <- CRVs Whats <- CWhats1
+  MaxIn = 2 Kinds = {"h", "s", "p", "l"} MsgIds = {1} NextRVs <- CRVs Whats <- CWhats1
   MaxQ = 2 Hows = {"shut"} MaxSent = 2 Ops <- OpsQ
 CONSTRAINT BoundQ
 VIEW SkelQ
